@@ -40,6 +40,8 @@
 #include <QSslSocket>
 #include <QTcpServer>
 #include <QThread>
+#include "QXmppRegistrationManager.h"
+#include "QXmppRegisterIq.h"
 #include <QTimer>
 #include <QTimerEvent>
 #include <QUuid>
@@ -87,12 +89,14 @@ struct Cfg {
     int token = 0;        // FAST: 0 nothing, 1 user agent + HT token, 2 user agent only
     bool nsPlain = false; // XEP-0078 preference plain instead of digest
     bool inactive = false; // client state indication: inactive before connecting
+    int reg = 0;           // QXmppRegistrationManager with registerOnConnect: 0 not installed, 1 enabled, 2 enabled with a cached form (username + password)
+    bool ar = false;       // automatic reconnection (the reconnect timer is fired by the op `rtick`, never by real time: its first delay is seconds)
     int ka = 0;            // keep-alive pings: 0 off, 1 on (interval one hour, the op `tick` fires the timer), 2 on with a real interval of 1 s
     std::string str() const
     {
         char b[128];
         snprintf(b, sizeof b, "tls=%d s2=%d s1=%d ns=%d pl=%d tok=%d nsp=%d ina=%d", tls, sasl2, sasl, nonsasl, plainOk, token, nsPlain, inactive);
-        return std::string(b) + (ka ? " ka=" + std::to_string(ka) : "");
+        return std::string(b) + (ka ? " ka=" + std::to_string(ka) : "") + (ar ? " ar=1" : "") + (reg ? " reg=" + std::to_string(reg) : "");
     }
 };
 
@@ -103,7 +107,7 @@ static QXmppConfiguration makeConfig(const Cfg &c, quint16 port)
     cfg.setPassword(PASSWORD);
     cfg.setHost("127.0.0.1");
     cfg.setPort(port);
-    cfg.setAutoReconnectionEnabled(false);
+    cfg.setAutoReconnectionEnabled(c.ar);
     cfg.setKeepAliveInterval(c.ka == 0 ? 0 : c.ka == 2 ? 1 : 3600);   // ka=1: an hour, fired by the op `tick`; ka=2: one real second
     cfg.setKeepAliveTimeout(0);
     cfg.setIgnoreSslErrors(true);
@@ -205,6 +209,7 @@ static std::string classify(const QString &x)
         if (has("urn:ietf:params:xml:ns:xmpp-bind")) return "Bind";
         if (type == "error") return "IqReply:error";
         if (type == "result") return "IqReply:result";
+        if (has("jabber:iq:register")) return type == "get" ? "Register:get" : "Register:set";
         if (has("jabber:iq:roster")) return "IqRequest:roster";
         if (has("urn:xmpp:ping")) return "IqRequest:ping";
         return "IqRequest:other";
@@ -259,6 +264,9 @@ struct Conn {
     QByteArray plain;       // bytes read while the server side was NOT encrypted = what crossed the wire in clear
     QByteArray secure;      // bytes read through TLS
     bool tlsStarted = false, tlsDone = false, tlsFailed = false, garbageOnHello = false, awaitHello = false, closed = false;
+    bool tlsShutDown = false;   // the server sent close_notify and kept the TCP connection: `sock` is now a raw view of the same connection
+    QByteArray rawTail;         // unparsed rest of the raw byte stream after close_notify (TLS records are skipped, the rest is plain)
+    long long cipherAfterShutdown = 0;
     int id = 0;
     // what the script delivered on this connection (for the oracles; independent of the model)
     int delivered = 0;
@@ -342,6 +350,7 @@ struct World {
     QStringList outstandingIds;        // the application's own requests still waiting for an answer
     long long settleTimeouts = 0;
     bool verbose = false;
+    bool encryptionDropped = false;    // observed (model independent): a connected, encrypted client socket became unencrypted without reconnecting
     bool enabledLoc = false;           // script view: the last <enabled/> the server sent named a resume location
 
     World()
@@ -377,6 +386,7 @@ struct World {
     {
         cfg = c;
         enabledLoc = false;
+        encryptionDropped = false;
         client.reset();
         // drop old server connections
         for (Server *s : { &srvA, &srvB, &srvC }) {
@@ -387,6 +397,18 @@ struct World {
         QCoreApplication::sendPostedEvents(nullptr, QEvent::DeferredDelete);
         TestClient::resetIds();
         client = std::make_unique<TestClient>();
+        if (c.reg) {
+            // a second consumer of stream features: with registerOnConnect the extension takes <stream:features/> through elementReceived()
+            auto *rm = new QXmppRegistrationManager;
+            client->addExtension(rm);
+            rm->setRegisterOnConnectEnabled(true);
+            if (c.reg == 2) {
+                QXmppRegisterIq form;
+                form.setUsername(USER);
+                form.setPassword(PASSWORD);
+                rm->setRegistrationFormToSend(form);
+            }
+        }
         client->logger()->setLoggingType(QXmppLogger::SignalLogging);
         client->logger()->disconnect();
         QObject::connect(client->logger(), &QXmppLogger::message, client.get(), [this](QXmppLogger::MessageType t, const QString &text) {
@@ -596,6 +618,7 @@ static QByteArray featuresXml(const QStringList &t)
         if (k == 'b' && v == "1") x += "<bind xmlns='urn:ietf:params:xml:ns:xmpp-bind'/>";
         if (k == 's' && v == "1") x += "<sm xmlns='urn:xmpp:sm:3'/>";
         if (k == 'c' && v == "1") x += "<csi xmlns='urn:xmpp:csi:0'/>";
+        if (k == 'g' && v == "1") x += "<register xmlns='http://jabber.org/features/iq-register'/>";
         if (k == 'z' && v.at(0) != 'n') {
             x += "<authentication xmlns='urn:xmpp:sasl:2'><mechanism>" + mech(v.at(0)) + "</mechanism>";
             bool b2 = v.at(1) != '0', fast = v.at(2) == '1', smr = v.at(3) == '1';
@@ -624,9 +647,13 @@ struct Runner {
     // returns the observation
     std::string apply(const std::string &opStr)
     {
+        auto *cs0 = w.client->strm()->socket();
+        const bool wasEnc = cs0->state() == QAbstractSocket::ConnectedState && cs0->isEncrypted();
+        const quint16 port0 = cs0->localPort();
         perform(opStr);
         long long st = w.settleTimeouts;
         w.settle();
+        if (wasEnc && cs0->state() == QAbstractSocket::ConnectedState && cs0->localPort() == port0 && !cs0->isEncrypted()) w.encryptionDropped = true;
         if (w.settleTimeouts != st) fprintf(stderr, "harness: ... during op '%s'\n", opStr.c_str());
         return w.takeObs();
     }
@@ -789,7 +816,7 @@ struct Runner {
         } else if (op == "partial") {
             c.srvSend("<iq type='get' id='half");   // the beginning of an element; the rest never comes
         } else if (op == "errclose") {
-            c.srvSend("<stream:error><conflict xmlns='urn:ietf:params:xml:ns:xmpp-streams'/></stream:error></stream:stream>");
+            c.srvSend("<stream:error><policy-violation xmlns='urn:ietf:params:xml:ns:xmpp-streams'/></stream:error></stream:stream>");
         } else if (op == "redirectclose") {
             c.srvSend("<stream:error><see-other-host xmlns='urn:ietf:params:xml:ns:xmpp-streams'>127.0.0.1:" + QByteArray::number(c.srvB.serverPort()) + "</see-other-host></stream:error></stream:stream>");
         } else if (op == "rst") {
@@ -801,6 +828,58 @@ struct Runner {
                 k->sock->abort();
                 k->closed = true;
             }
+        } else if (op == "closenotify" || op == "tapview") {
+            // tapview (not an op of the scripts, no correspondence line): the harness stops decrypting and watches the raw bytes of the
+            // connection like a wire tap, without telling the client anything
+            // TLS close_notify WITHOUT closing TCP: a duplicate of the descriptor keeps the connection open when QSslSocket closes its own
+            // after the TLS shutdown; from then on the server side reads the raw bytes of the same TCP connection
+            auto k = c.conn();
+            if (k && !k->closed && k->tlsDone && !k->tlsShutDown) {
+                int d = dup(int(k->sock->socketDescriptor()));
+                QSslSocket *old = k->sock;
+                old->disconnect();          // no signal of the old object reaches the harness any more
+                if (op == "tapview") old->abort();   // closes ITS descriptor only, nothing is written
+                else old->disconnectFromHost();      // SSL_shutdown (close_notify), then close() of ITS descriptor (no FIN: `d` still refers to the socket)
+                for (int i = 0; i < 200 && old->state() != QAbstractSocket::UnconnectedState; i++) QCoreApplication::processEvents(QEventLoop::AllEvents, 5);
+                old->deleteLater();
+                auto *raw = new QSslSocket(&c.srvA);   // stays in UnencryptedMode: a plain TCP socket
+                raw->setSocketDescriptor(d);
+                raw->setSocketOption(QAbstractSocket::LowDelayOption, 1);
+                k->sock = raw;
+                k->tlsShutDown = true;
+                Conn *cp = k.get();
+                World *wp = &c;
+                QObject::connect(raw, &QSslSocket::readyRead, raw, [cp, raw, wp]() {
+                    cp->rawTail += raw->readAll();
+                    // TLS records (what the client still writes through its half-open TLS session) are opaque; anything else is PLAINTEXT
+                    for (;;) {
+                        QByteArray &t = cp->rawTail;
+                        if (t.isEmpty()) break;
+                        uchar ty = uchar(t[0]);
+                        if (ty >= 20 && ty <= 23) {
+                            if (t.size() < 5) break;
+                            if (uchar(t[1]) == 3 && uchar(t[2]) <= 4) {
+                                int len = (uchar(t[3]) << 8) | uchar(t[4]);
+                                if (t.size() < 5 + len) break;
+                                cp->cipherAfterShutdown += 5 + len;
+                                t.remove(0, 5 + len);
+                                continue;
+                            }
+                        }
+                        cp->plain += t;
+                        t.clear();
+                    }
+                    wp->act++;
+                });
+                QObject::connect(raw, &QSslSocket::disconnected, raw, [cp, wp]() { cp->closed = true; wp->act++; });
+            }
+        } else if (op == "rtick") {
+            // the reconnect timer of QXmppClient (single shot) fires, if it is running
+            for (QTimer *tm : c.client->findChildren<QTimer *>(QString(), Qt::FindDirectChildrenOnly))
+                if (tm->isActive() && tm->isSingleShot()) {
+                    QTimerEvent ev(tm->timerId());
+                    QCoreApplication::sendEvent(tm, &ev);
+                }
         } else if (op == "tick") {
             // the keep-alive interval elapses: every running periodic timer of the outgoing client (the ping timer; configured to one
             // hour so that real time never fires it) gets its timer event now
@@ -832,7 +911,7 @@ struct Runner {
         } else if (op == "presence") {
             c.srvSend(t.value(1) == "sub" ? "<presence from='bob@" + DOMAIN.toUtf8() + "' type='subscribe'/>" : "<presence from='bob@" + DOMAIN.toUtf8() + "/x'/>");
         } else if (op == "streamerror") {
-            c.srvSend("<stream:error><conflict xmlns='urn:ietf:params:xml:ns:xmpp-streams'/></stream:error>");
+            c.srvSend("<stream:error><policy-violation xmlns='urn:ietf:params:xml:ns:xmpp-streams'/></stream:error>");
         } else if (op == "redirect") {
             c.srvSend("<stream:error><see-other-host xmlns='urn:ietf:params:xml:ns:xmpp-streams'>127.0.0.1:" + QByteArray::number(c.srvB.serverPort()) + "</see-other-host></stream:error>");
         } else if (op == "close") {
@@ -871,7 +950,7 @@ static int runManual(const std::string &cfgStr, const std::string &script)
     for (const QString &kv : QString::fromStdString(cfgStr).split(' ', Qt::SkipEmptyParts)) {
         QString k = kv.section('=', 0, 0); int v = kv.section('=', 1).toInt();
         if (k == "tls") cfg.tls = v; else if (k == "s2") cfg.sasl2 = v; else if (k == "s1") cfg.sasl = v; else if (k == "ns") cfg.nonsasl = v;
-        else if (k == "pl") cfg.plainOk = v; else if (k == "tok") cfg.token = v; else if (k == "nsp") cfg.nsPlain = v; else if (k == "ina") cfg.inactive = v; else if (k == "ka") cfg.ka = v;
+        else if (k == "pl") cfg.plainOk = v; else if (k == "tok") cfg.token = v; else if (k == "nsp") cfg.nsPlain = v; else if (k == "ina") cfg.inactive = v; else if (k == "ka") cfg.ka = v; else if (k == "ar") cfg.ar = v; else if (k == "reg") cfg.reg = v;
     }
     r.w.newClient(cfg);
     printf("reset %s\n", cfg.str().c_str());
@@ -1046,22 +1125,29 @@ static void oracleC04(Session &s)
                     if (k.rfind("IqReply", 0) == 0 && c->sawForeignIq) cause = "answer-to-foreign-namespace-iq";
                     if (k == "SmAck" && c->sawSmR) cause = "answer-to-sm-request";
                     if (s.cfg.ka && (k == "IqRequest:ping" || k == "SmReq")) cause = "keepalive-timer";
+                    if (k.rfind("Register", 0) == 0) cause = "register-on-connect";
                     if (k == "SmReq" && c->sawForeignIq) cause = "with-answer-to-foreign-namespace-iq";
                     std::string key = "C04:cleartext:" + k + ":" + cause;
+                    if (w.encryptionDropped && c->tlsDone) key = "C04:cleartext-after-connect-on-live-socket";
                     if (!reported.count(key)) { reported.insert(key); fail(key, s.replay()); }
                 }
             }
             std::string sec = secrets().find(c->plain);
             if (!sec.empty() && !reported.count("secret:" + sec)) {
                 reported.insert("secret:" + sec);
-                fail("C04:secret-in-cleartext:" + sec + (c->sawVersionlessHeader ? ":after-versionless-header" : ":unexplained"), s.replay());
+                fail("C04:secret-in-cleartext:" + sec + (c->sawVersionlessHeader ? ":after-versionless-header" : s.cfg.reg == 2 && c->plain.contains("jabber:iq:register") ? ":registration-form" : ":unexplained"), s.replay());
             }
         }
     // cross-check of the two observation points: client-side log + isEncrypted() versus bytes on the server side
     std::vector<std::string> clientView;
     for (auto &r : w.sent) if (r.conn && !r.enc) clientView.push_back(r.kind);
     std::multiset<std::string> a(serverView.begin(), serverView.end()), b(clientView.begin(), clientView.end());
-    if (a != b) fail("C04:oracle-views-differ", s.replay());
+    // a TLS session must never fall back to plaintext on the same TCP connection (the server side may still be in TLS mode and see
+    // only garbage, so this is judged from the client's socket: QSslSocket::isEncrypted() before and after every op)
+    if (w.encryptionDropped) {
+        fail("C04:encryption-dropped-on-live-connection", s.replay());
+        reported.insert("dropped");
+    } else if (a != b) fail("C04:oracle-views-differ", s.replay());
     if (reported.empty()) oraclePass()++;
 }
 
@@ -1321,6 +1407,8 @@ static void exploreC10(Runner &r, Rng &rng, bool thorough)
         { "loc-then-cut", "sasl-bind-smr-loc", -1, {}, 0, 'c', "sasl-bind-smr" },
         { "loc-then-rst-tls", "tls-scram-bind-smr-loc", -1, {}, 3, 'r', "tls-scram-bind-smr-loc" },
         { "loc-then-error-close-tls", "tls-scram-bind-smr-loc", -1, { "errclose" }, 3, 'd', "tls-scram-bind-smr-loc" },
+        { "close-notify-then-cut", "tls-sasl-bind", -1, { "closenotify" }, 3, 'c', "tls-sasl-bind" },
+        { "close-notify-then-rst", "tls-scram-bind-smr-loc", -1, { "closenotify" }, 3, 'r', "tls-scram-bind-smr-loc" },
         { "ws-in-session", "sasl-bind", -1, { "ws" }, 0, 'u', "sasl-bind" },
         { "ws-in-session-smr", "sasl-bind-smr", -1, { "ws" }, 0, 'u', "sasl-bind-smr" },
         { "auth-failure", nullptr, 0, { "connect", "hdr 1 1", "feat mp", "failure" }, 0, 'd', "sasl-bind" },
@@ -1526,7 +1614,7 @@ static const std::vector<std::string> &alphabetFull()
         "iqget version", "iqget disco", "iqget unknown", "iqset", "iqresult pending", "iqresult stray", "message", "presence sub", "presence avail",
         "streamerror", "redirect", "close", "drop", "sendiq", "connect",
         "xel f iqget-version", "xel e iqget-version", "xel s iqget-version", "xel f iqget-unknown", "xel s iqset", "xel e iqresult-pending",
-        "xel f message", "xel s presence", "smr", "sma", "ws", "partial", "errclose", "redirectclose", "rst", "tick", "tick", "smenabledat",
+        "xel f message", "xel s presence", "smr", "sma", "ws", "partial", "errclose", "redirectclose", "rst", "tick", "tick", "smenabledat", "rtick", "rtick", "feat t0 g1", "feat t1 g1", "feat t0 g1 mp b1", "feat g1 zp200",
         "seg hdr 1 1 + feat t1 mp a1 b1", "seg hdr 1 1 + feat t0 mp a1", "seg hdr 1 1 + iqget version", "seg hdr 1 1 + xel f iqget-version",
         "seg hdr 1 1 + feat t0 b1 s1 c1",
     };
@@ -1636,6 +1724,71 @@ static void exploreC04(Runner &r, Rng &rng, bool thorough)
                 stat("c04:stall-scenarios");
             });
     }
+    // a second consumer of stream features: QXmppRegistrationManager with registerOnConnect (with / without a cached form that carries
+    // user name and password) takes <stream:features/> through elementReceived(); every combination of TLS mode x starttls offer x
+    // <register/> feature, a second features element, an answer, features inside TLS and after a failed handshake
+    for (int tlsMode = 0; tlsMode <= 2; tlsMode++)
+        for (int reg = 1; reg <= 2; reg++)
+            for (const char *f1 : { "feat t0 g1", "feat t1 g1", "feat t2 g1 mp", "feat t0 mp b1", "feat t1", "feat t0 g1 mp a1 b1 s1 c1 zp200" })
+                for (const char *next : { "feat t0 g1", "iqresult stray", "proceed 1", "proceed 0", "tlsfailure", "message", "drop" })
+                    experiment(r.w.settleTimeouts, nullptr, [&]() {
+                        Cfg c; c.tls = tlsMode; c.plainOk = true; c.reg = reg; c.ar = true;
+                        Session s(r, c);
+                        s.op("connect");
+                        TlsUnavailableCheck chk;
+                        for (std::string o : { std::string("hdr 1 1"), std::string(f1), std::string(next), std::string("hdr 1 1"), std::string("feat t0 g1 mp"), std::string("feat t0 g1"), std::string("rtick") }) {
+                            chk.before(s, o);
+                            s.op(o);
+                            chk.after(s);
+                        }
+                        oracleC04(s);
+                        stat("c04:register-on-connect-scenarios");
+                    });
+    // connectToHost() on a LIVE socket: (b) the server sends a TLS close_notify but keeps the TCP connection, automatic reconnection fires
+    // its timer; (c) a timer armed by an earlier socket error fires after the application has connected again by itself. After the
+    // close_notify the harness reads the raw TCP bytes, so plaintext on the wire is seen by the server-side oracle as well.
+    {
+        auto pols = policies();
+        const char *after[] = { "tick", "sendiq", "iqget version", "message", "rtick", "drop", "smr", "ws" };
+        for (auto &p : pols) {
+            if (!p.tls || p.redirectAt != -1) continue;
+            for (int variant = 0; variant < 3; variant++)
+                for (auto fin : after)
+                    experiment(r.w.settleTimeouts, nullptr, [&]() {
+                        Cfg c; c.tls = 2; c.plainOk = true; c.ka = 1; c.ar = true;
+                        Session s(r, c);
+                        World &w = r.w;
+                        auto flow = [&]() {
+                            Conforming srv; srv.p = p;
+                            size_t sentFrom = w.sent.size();
+                            bool newStream = true;
+                            for (int guard = 0; guard < 40; guard++) {
+                                std::string last = lastRequest(w, sentFrom);
+                                std::string o = srv.next(last, newStream || last == "StreamOpen");
+                                if (o.empty()) break;
+                                sentFrom = w.sent.size();
+                                newStream = false;
+                                s.op(o);
+                            }
+                        };
+                        s.op("connect");
+                        if (variant == 0) { flow(); s.op("closenotify"); s.op("rtick"); }
+                        else if (variant == 2) { flow(); s.op("connect"); }   // the application calls connectToServer() on a live session
+                        else {
+                            // the server keeps its TLS session: only what the CLIENT does next is scripted (a server speaking TLS to a client
+                            // that reads plaintext is outside the model); the harness watches the wire
+                            if (std::string(fin) != "tick" && std::string(fin) != "sendiq" && std::string(fin) != "rtick") return;
+                            s.op("hdr 1 1"); s.op("drop"); s.op("connect"); flow();
+                            r.perform("tapview");
+                            s.op("rtick");
+                        }
+                        // the application sends only while isConnected() (sending before the session exists is outside the property)
+                        if (std::string(fin) == "sendiq" && !w.client->isConnected()) s.op("tick"); else s.op(fin);
+                        oracleC04(s);
+                        stat("c04:live-socket-reconnect-scenarios");
+                    });
+        }
+    }
     // timers (outside the Lean model: the time that passes is not an op, only the oracle judges): keep-alive pings switched on, time
     // passes before TLS on a first connection and on the connection opened after a see-other-host in an established session
     for (int variant = 0; variant < 3; variant++)
@@ -1708,7 +1861,8 @@ static void exploreC04(Runner &r, Rng &rng, bool thorough)
         c.sasl2 = rng.below(4) != 0; c.sasl = rng.below(4) != 0; c.nonsasl = rng.below(3) != 0;
         c.plainOk = rng.coin(); c.nsPlain = rng.coin(); c.inactive = rng.below(4) == 0;
         int tk = int(rng.below(4)); c.token = tk == 3 ? 0 : tk;
-        c.ka = rng.coin() ? 1 : 0;
+        c.ka = rng.coin() ? 1 : 0; c.ar = rng.coin();
+        if (rng.below(5) == 0) c.reg = 1 + int(rng.below(2));
         Session s(r, c);
         s.op("connect");
         Conforming srv; srv.p = pols[rng.below(uint32_t(pols.size()))];
@@ -1724,15 +1878,14 @@ static void exploreC04(Runner &r, Rng &rng, bool thorough)
             if (rng.below(3) != 0) o = srv.next(last, newStream || last == "StreamOpen");
             newStream = false;
             if (o.empty()) o = F[rng.below(uint32_t(F.size()))];
-            // connectToServer() on a live connection makes QSslSocket::connectToHost() reset the socket to plaintext mode (Qt); what
-            // follows is garbage on both sides, so it is only generated as the very last op of a script
-            if (o == "connect" && r.w.client->strm()->socket()->state() != QAbstractSocket::UnconnectedState && k != len - 1) o = "drop";
+            // connectToServer() / the reconnect timer on a live connection: the old connection is aborted, a new one opened (6235115)
+            auto connBefore = r.w.conn();
             // application requests sent before the session exists are outside the property (it quantifies over servers)
             if (o == "sendiq" && c.tls == 2 && !r.w.client->strm()->socket()->isEncrypted()) o = "message";
             chk.before(s, o);
             s.op(o);
             chk.after(s);
-            if (o == "redirect" || o == "connect") { srv.tlsDone = srv.authed = srv.bind2Now = false; newStream = true; }
+            if (o == "redirect" || r.w.conn() != connBefore) { srv.tlsDone = srv.authed = srv.bind2Now = false; newStream = true; }
         }
         oracleC04(s);
         stat("c04:random-scripts");
